@@ -147,12 +147,24 @@ def check_transitions(h: History, live_table: dict[str, set[str]] | None = None)
 # C03 -- a stage never runs before its dependencies allow it
 # ---------------------------------------------------------------------------
 def check_join_at_claim(h: History, program: Any) -> list[dict[str, Any]]:
+    """The only stage that may start without its join being met is the explicit target of a jump.  Which stage
+    that is comes from the history (the StartStage that the JumpToStage handling queued), not from the engine's own
+    `_jump_bypass` flag: a flag that leaks onto another stage must not buy that stage the exemption."""
     out = []
     status: dict[str, str] = {}
+    jump_target: dict[str, int] = {}     # stage id -> number of pending "start as jump target" grants
     for r in h.audit:
         k = r["kind"]
         if k == "stage_ins":
             status[r["row_id"]] = r["new"]
+            continue
+        if k == "q_ins" and r["new"] == "StartStage" and ctx_handler(r["ctx"]) == "JumpToStage":
+            try:
+                tid = json.loads((r["extra"] or {}).get("payload") or "{}").get("stage_id")
+            except Exception:
+                tid = None
+            if tid:
+                jump_target[tid] = jump_target.get(tid, 0) + 1
             continue
         if k != "stage":
             continue
@@ -163,7 +175,9 @@ def check_join_at_claim(h: History, program: Any) -> list[dict[str, Any]]:
             ref = info.get("ref")
             if ref in program.stages and not info.get("parent"):
                 e = r["extra"] or {}
-                bypass = bool(e.get("jb_old")) and not e.get("jb_new")
+                bypass = jump_target.get(sid, 0) > 0
+                if bypass:
+                    jump_target[sid] -= 1
                 if not bypass:
                     sp = program.stages[ref]
                     deps = list(sp.get("deps") or [])
@@ -479,9 +493,14 @@ def sweep_in_claim_plan_window(h: History) -> list[dict[str, Any]]:
         if not hit and r["new"] == "StartTask":
             # the sweep decided on a read taken inside that window and committed its StartTask after the plan: the
             # stage's before-stages exist by now and are not finished, yet its first task is being started
+            # ... which is only possible when the sweep overlapped the handling that stored them: the before-stage
+            # rows became durable after this sweep had begun (a sweep that runs between two deliveries of a single
+            # worker has seen them, and starting the parent's task then is plainly wrong, not this race)
+            began = max((m[0] for m in getattr(h.w, "sweep_marks", []) if m[0] < r["seq"]), default=None)
             pending = [k for k, info in h.stage_info.items()
                        if info.get("parent") == sid and str(info.get("owner") or "").endswith("BEFORE")
-                       and info.get("ins_seq", 0) < r["seq"] and status.get(k) not in COMPLETE]
+                       and info.get("ins_seq", 0) < r["seq"] and status.get(k) not in COMPLETE
+                       and began is not None and info.get("ins_seq", 0) > began]
             if pending:
                 out.append({"stage": h.key_of_stage(sid), "queued": r["new"], "seq": r["seq"], "msg": "-", "how": "stale-read"})
     return out
